@@ -746,6 +746,9 @@ def r07_5_quoted_scalars_read_back(ctx, rid='R07.5'):
     r.done()
 
 
+from ..guards import mutated_names
+
+
 def r01_13_extras_partition(ctx, rid='R01.13'):
     """What __init__ receives when the class takes _yatiml_extra: every constructed attribute exactly once - those that name a
     parameter under their own name, all others together, in document order, in an OrderedDict under `_yatiml_extra` - and
@@ -774,10 +777,22 @@ def r01_13_extras_partition(ctx, rid='R01.13'):
     res = fl.result
     classes = [(k, ink) for k in ('_yatiml_extra', 'self', 'some_key') for ink in (False, True)]
 
+    # copies of the parameter list that are only asked for membership (`known_names = set(known_attrs)`) answer the same
+    same_members = {known}
+    for n in f.walk():
+        if isinstance(n, ast.Assign) and len(n.targets) == 1 and isinstance(n.targets[0], ast.Name):
+            v_ = n.value
+            while isinstance(v_, ast.Call) and isinstance(v_.func, ast.Name) and v_.func.id in ('set', 'frozenset', 'list', 'tuple') \
+                    and len(v_.args) == 1 and not v_.keywords:
+                v_ = v_.args[0]
+            if isinstance(v_, ast.Name) and v_.id == known and v_ is not n.value \
+                    and len(S.assigned_from(f, n.targets[0].id)) == 1 and n.targets[0].id not in mutated_names(f.node):
+                same_members.add(n.targets[0].id)
+
     def table(part):
         out = {}
         for k, ink in classes:
-            out[(k, ink)] = cond_truth(part.cond, k, {known: ink})
+            out[(k, ink)] = cond_truth(part.cond, k, {nm: ink for nm in same_members})
         return out
 
     def check_part(d, what, want, keyname):
